@@ -21,11 +21,16 @@ def q_alphabet(P, T, VK):
         for j in range(P):
             ops.append(("ma", i, j))          # i == j: self move assignment
     for i in range(P):
-        ops += [("rs", i), ("dr", i), ("vp", i)]
-    ops += [("vg",), ("vc",)]
+        ops += [("rs", i), ("dr", i), ("vp", i), ("an", i), ("dc", i)]
+    for i in range(P):
+        for j in range(i, P):
+            ops.append(("sw", i, j))          # i == j: swap with itself
+    ops += [("vg",), ("vc",), ("vo",)]
     for i in range(P):
         for k in range(VK):
             ops.append(("vt", i, k))
+    for k in range(VK):
+        ops.append(("vn", k))
     return ops
 
 
@@ -38,12 +43,18 @@ def q_applicable(st, op):
         return op[1] < len(live)
     if k == "mc":
         return op[1] < len(live) and op[2] < len(live) and (not live[op[1]]) and live[op[2]]
-    if k == "ma":
+    if k in ("ma", "sw"):
         return op[1] < len(live) and op[2] < len(live) and live[op[1]] and live[op[2]]
-    if k in ("rs", "dr", "vp"):
+    if k in ("rs", "dr", "vp", "an"):
         return op[1] < len(live) and live[op[1]]
+    if k == "dc":
+        return op[1] < len(live) and not live[op[1]]
     if k in ("vg", "vc"):
         return True
+    if k == "vo":
+        return vl > 0
+    if k == "vn":
+        return op[1] < vl
     if k == "vt":
         return op[1] < len(live) and live[op[1]] and op[2] < vl
     return False
@@ -55,7 +66,7 @@ def q_shape_step(st, op):
     live, vl = st
     live = list(live)
     k = op[0]
-    if k in ("mk", "mc"):
+    if k in ("mk", "mc", "dc"):
         live[op[1]] = True
     elif k == "dr":
         live[op[1]] = False
@@ -63,6 +74,8 @@ def q_shape_step(st, op):
         vl += 1
     elif k == "vc":
         vl = 0
+    elif k == "vo":
+        vl -= 1
     return (tuple(live), vl)
 
 
@@ -124,7 +137,7 @@ class C18(Check):
     technique = ("Coq proof of ownership invariants over executable models of quaint_ptr.hpp and optional.hpp (counting owners per "
                  "object, induction over arbitrary operation lists; optional by refinement to plain value semantics) + "
                  "extraction-based differential test against the C++ with instrumented payload types under ASan/UBSan/LSan")
-    level_text = ("Twenty-four theorems proved in Coq for ALL operation lists: every object made through make_quaint is destroyed at most "
+    level_text = ("Twenty-six theorems proved in Coq for ALL operation lists: every object made through make_quaint is destroyed at most "
                   "once and only by the destructor of its creation type, is alive iff exactly one pointer (pool variable or vector "
                   "element) owns it, moved-from and reset pointers are empty, vector reallocation destroys nothing, and after the "
                   "last owner is gone every object has been destroyed exactly once; optional<T> refines plain value semantics "
@@ -147,8 +160,8 @@ class C18(Check):
                   "payload type (bool, int, constructible-from-anything, convertible-from-bool, std::string, counting type) — i.e. which "
                   "overload is actually selected — are distinguished only by the driver. Leaks: allocator bytes are compared before/after every case and LeakSanitizer confirms any growth.")
     rule = ("quaint_ptr: every applicable operation sequence of depth 4 (thorough: also depth 5 on a pool of 2 and depth 4 with 3 types) "
-            "over {make<T>, move-construct, move-assign (incl. self), reset, destroy, push_back(move), reserve, clear, move out of "
-            "vector} on a pool of 3 pointers + one std::vector<quaint_ptr>, then random sequences of length 12-20 (biased to "
+            "over {make<T>, default-construct, move-construct, move-assign (incl. self), reset, p = nullptr (also on a vector "
+            "element), std::swap (incl. with itself), destroy, push_back(move), reserve, pop_back, clear, move out of vector} on a pool of 3 pointers + one std::vector<quaint_ptr>, then random sequences of length 12-20 (biased to "
             "applicable operations) and fully random ones (inapplicable operations must be skipped identically); optional: every "
             "sequence of depth 3 over {assign value, construct from value, copy-assign (incl. self), copy-construct, assign empty, "
             "default-construct, read} on 2 optionals of a counting type, every sequence of depth 2 over the same operations with the source offered as "
@@ -252,7 +265,7 @@ class C18(Check):
         if w[0] == "q":
             steps = iobs.split(";")
             destroyed_early = any("d:" in s for s in steps[:-1] if not s.startswith("fin"))
-            moved = any(o.split(".")[0] in ("mc", "ma", "vp", "vt") for o in w[2].split(","))
+            moved = any(o.split(".")[0] in ("mc", "ma", "vp", "vt", "sw") for o in w[2].split(","))
             return destroyed_early and moved
         if w[0] == "o":
             return any(o.split(".")[0] in COPY_OPS_ALL for o in w[3].split(","))
